@@ -83,6 +83,10 @@ func (g *Gen) verify() {
 	for _, r := range c.Requires {
 		g.assume(st, g.spec(st, r.Expr, env))
 	}
+	for _, r := range c.Assumes {
+		g.assume(st, g.spec(st, r.Expr, env))
+		g.trustedUsed["unchecked entry assumption of "+g.short+": "+r.Expr] = true
+	}
 	if coverVals != "" {
 		var alts []string
 		for _, v := range strings.Fields(coverVals) {
